@@ -165,7 +165,24 @@ type unaryDef struct {
 	body *sx
 }
 
-func asUnaryDef(a string) *unaryDef {
+// lemmaMode: in the small VCs of pure lemmas every definition (also of several arguments, also the class-run
+// characterisations) is instantiated at every ground application.
+func asUnaryDefMode(a string, lemmaMode bool) *unaryDef {
+	d := asUnaryDef0(a)
+	if d == nil {
+		return nil
+	}
+	if !lemmaMode && (strings.HasPrefix(d.fn, "runLen_") || strings.HasPrefix(d.fn, "classRun_")) {
+		// the characterisation of a maximal class run is a string fact that slows cvc5 down by orders of magnitude
+		// wherever it is not needed; in function VCs it stays available to the E-matching back ends only
+		return nil
+	}
+	return d
+}
+
+func asUnaryDef(a string) *unaryDef { return asUnaryDefMode(a, false) }
+
+func asUnaryDef0(a string) *unaryDef {
 	if !strings.HasPrefix(a, "(forall ((") {
 		return nil
 	}
@@ -201,11 +218,6 @@ func asUnaryDef(a string) *unaryDef {
 			return nil
 		}
 	}
-	if strings.HasPrefix(pt.list[0].atom, "runLen_") || strings.HasPrefix(pt.list[0].atom, "classRun_") {
-		// the characterisation of a maximal class run is a string fact that slows cvc5 down by orders of magnitude
-		// wherever it is not needed; it stays available to the E-matching back ends only
-		return nil
-	}
 	return &unaryDef{fn: pt.list[0].atom, vs: vs, body: b.list[1]}
 }
 
@@ -229,6 +241,10 @@ func substSx(n *sx, m map[string]*sx) *sx {
 // several arguments only at applications in the goal (the last formula) and in instances already produced, which
 // keeps the weakening small.
 func groundInstances(defs []*unaryDef, formulas []string, limit int) []string {
+	return groundInstancesMode(defs, formulas, limit, false)
+}
+
+func groundInstancesMode(defs []*unaryDef, formulas []string, limit int, allFull bool) []string {
 	byFn := map[string][]*unaryDef{}
 	for _, d := range defs {
 		byFn[d.fn] = append(byFn[d.fn], d)
@@ -244,6 +260,14 @@ func groundInstances(defs []*unaryDef, formulas []string, limit int) []string {
 		gen  int  // 0: a given formula; k: an instance produced from generation k-1 (chains are cut at 3)
 	}
 	var work []item
+	var goalSks []string
+	if allFull && len(formulas) > 0 {
+		for _, w := range strings.FieldsFunc(formulas[len(formulas)-1], func(r rune) bool { return r == ' ' || r == '(' || r == ')' }) {
+			if strings.HasPrefix(w, "sk_") {
+				goalSks = append(goalSks, w)
+			}
+		}
+	}
 	for i, f := range formulas {
 		mentions := false
 		for fn := range byFn {
@@ -253,7 +277,20 @@ func groundInstances(defs []*unaryDef, formulas []string, limit int) []string {
 			}
 		}
 		if mentions {
-			work = append(work, item{parseSx(f), i == len(formulas)-1, 0})
+			full := i == len(formulas)-1
+			if allFull && !full {
+				// lemma VCs are shared: only the formulas about this lemma's own Skolem constants count
+				for _, sk := range goalSks {
+					if strings.Contains(f, sk) {
+						full = true
+						break
+					}
+				}
+				if !full {
+					continue
+				}
+			}
+			work = append(work, item{parseSx(f), full, 0})
 		}
 	}
 	full := false
